@@ -119,13 +119,23 @@ def firstChanged : List Child → Option Nat
   | [] => none
   | c :: t => if c.changed then some 0 else (firstChanged t).map (· + 1)
 
+/-- index of the first child that is still alive -/
+def firstAlive : List Child → Option Nat
+  | [] => none
+  | c :: t => if c.state.isAlive then some 0 else (firstAlive t).map (· + 1)
+
 /-- `SystemState::child_to_wait_for` (every child in the model is a child of the parent).
-    Branch `-1`: the loop keeps the *last* child it saw unless it meets one with a changed state. -/
+    Branch `-1` (as of /repo d05a7cb): a child with a changed state is returned at once; otherwise the
+    loop keeps the first child and replaces it by the first *alive* one (`is_better`), so an
+    already-reaped child is selected only when there is nothing else. -/
 def childToWaitFor (cs : List Child) : Target → Option Nat
   | .any =>
     match firstChanged cs with
     | some i => some i
-    | none => if cs.length = 0 then none else some (cs.length - 1)
+    | none =>
+      match firstAlive cs with
+      | some i => some i
+      | none => if cs.length = 0 then none else some 0
   | .pid i => if i < cs.length then some i else none
 
 /-- `Ok(Some((pid, state)))`, `Ok(None)`, `Err(ECHILD)` -/
@@ -222,6 +232,11 @@ def step (s : Sys) : Label → Option Sys
 def enabled (s : Sys) : List Label :=
   ((Label.parent :: (List.range s.children.length).map Label.child).filter fun l => (step s l).isSome)
 
+def pickLabel (choices : List Nat) (l : Label) (ls : List Label) : Label :=
+  match choices with
+  | [] => l
+  | c :: _ => (l :: ls).getD (c % (ls.length + 1)) l
+
 /-- Runs `s` under the scheduler given by `choices` (index into `enabled`, modulo its length; when the
     choices are used up: the first enabled label) for at most `fuel` steps. -/
 def run : Nat → List Nat → Sys → Sys
@@ -230,10 +245,7 @@ def run : Nat → List Nat → Sys → Sys
     match enabled s with
     | [] => s
     | l :: ls =>
-      let pick := match choices with
-        | [] => l
-        | c :: _ => (l :: ls).getD (c % (ls.length + 1)) l
-      match step s pick with
+      match step s (pickLabel choices l ls) with
       | some s' => run fuel choices.tail s'
       | none => s
 
